@@ -172,6 +172,7 @@ std::string prop_generate(Tape & t, int size) {
 namespace {
 
 struct Ctx {
+    bool file0_close_failed = false; std::vector<int32_t> close_errors; int rd_file[2] = {-1, -1};
     long edge_stats[5] = {0, 0, 0, 0, 0};
     long rd_calls = 0, rd_calls_no_reader = 0, rd_calls_fsr_with_data = 0, edge_windows = 0, rd_open_skipped_writer_open = 0;
     Writer w;
@@ -189,7 +190,16 @@ struct Ctx {
 
 const char * FILES[] = {"c10_a.jls", "c10_b.jls", "c10_missing.jls", "c10_copy.jls"};
 
-void close_writer(Ctx & x) { if (x.w.is_open()) { x.w.close(); x.sig_dt.clear(); x.sig_type.clear(); x.src_defined.clear(); x.next_id.clear(); } }
+// Closing can fail (the tail of the file could not be written: out of memory for a summary buffer, I/O error).  The library must
+// say so; a file whose close reported an error is not promised to be readable, so the "in-range read must succeed" clause only
+// applies to file 0 while file0_close_failed is false.  (Crashes, hangs and out-of-bounds accesses stay violations for any file.)
+void close_writer(Ctx & x) {
+    if (!x.w.is_open()) return;
+    int32_t rc = x.w.close();
+    x.file0_close_failed = (rc != 0);
+    if (rc) { ++x.rejected; x.close_errors.push_back(rc); }
+    x.sig_dt.clear(); x.sig_type.clear(); x.src_defined.clear(); x.next_id.clear();
+}
 
 void exec_call(Ctx & x, const Call & c) {
     auto A = [&](size_t k) -> int64_t { return k < c.a.size() ? c.a[k] : 0; };
@@ -305,6 +315,7 @@ void exec_call(Ctx & x, const Call & c) {
         x.rd[r].close();
         if (x.w.is_open() && A(1) == 0) { ++x.rd_open_skipped_writer_open; vfs::io_budget(0); return; }   // opening the file that is being written would repair it underneath the writer: not a defined use
         rc = x.rd[r].open(FILES[A(1) & 3]);
+        x.rd_file[r] = (int) (A(1) & 3);
     } else if (f.rfind("rd_", 0) == 0) {
         int r = (int) A(0) & 1;
         struct jls_rd_s * rd = x.rd[r].rd;
@@ -342,7 +353,8 @@ void exec_call(Ctx & x, const Call & c) {
             memset(hb.p, 0x5c, sz);
             rc = (f == "rd_fsr_f32") ? jls_rd_fsr_f32(rd, id, start, (float *) hb.p, n) : jls_rd_fsr(rd, id, start, hb.p, n);
             if (n > 0 && rc == 0 && (!inside || f32bad)) x.fail("accepted_invalid", strf("%s(sig %u, start %lld, n %lld) returned 0 but the window is outside [0,%lld) or the signal is undefined / of another type", f.c_str(), id, (long long) start, (long long) n, (long long) len));
-            if (inside && !f32bad && rc) x.fail("rejected_valid", strf("%s(sig %u, start %lld, n %lld) inside [0,%lld) returned %d %s", f.c_str(), id, (long long) start, (long long) n, (long long) len, rc, ec_name(rc)));
+            bool file_ok = !(x.rd_file[r] == 0 && x.file0_close_failed);
+            if (inside && !f32bad && rc && file_ok) x.fail("rejected_valid", strf("%s(sig %u, start %lld, n %lld) inside [0,%lld) returned %d %s", f.c_str(), id, (long long) start, (long long) n, (long long) len, rc, ec_name(rc)));
             if (!rc && inside) ++x.data_ok;
         } else if (f == "rd_stats") {
             int64_t start = A(2), incr = A(3), cnt = A(4);
